@@ -370,7 +370,7 @@ func checkC08LimitConsistency(c *Ctx) {
 		"condition":  "function f(n) {\n  if (n > 0 && f(n - 1) == \"bottom\") {\n    return \"bottom\"\n  }\n  return \"bottom\"\n}\n",
 		"mutual":     "function f(n) {\n  if (n > 0) {\n    return g(n - 1)\n  }\n  return \"bottom\"\n}\nfunction g(n) {\n  return match (n) { 0 => \"bottom\", z => f(z - 1) }\n}\n",
 	}
-	depths := []int{1000, 6000, 50000}
+	depths := []int{1000, 3000, 6000, 50000}
 	type key struct {
 		shape string
 		d     int
@@ -404,6 +404,15 @@ func checkC08LimitConsistency(c *Ctx) {
 	for name := range shapes {
 		if res[key{name, 1000}] == "refused" {
 			c.Violation("limit-consistency", map[string]any{"shape": name, "depth": 1000, "why": "recursion a thousand calls deep works, wherever the calls are made from"})
+		}
+		// shapes that use one frame per level behave like plain recursion at every depth
+		if name == "for-in" || name == "argument" || name == "condition" {
+			for _, d := range depths {
+				if res[key{"plain", d}] == "works" && res[key{name, d}] == "refused" {
+					c.Violation("limit-consistency", map[string]any{"shape": name, "depth": d, "program": shapes[name],
+						"why": "plain recursion of this call depth works, but the same call depth is refused when the calls are made from " + name + ": something other than the genuinely nested calls is counted"})
+				}
+			}
 		}
 		for _, d := range depths[1:] {
 			if res[key{"plain", d}] == "refused" && res[key{name, d}] == "works" {
